@@ -2892,9 +2892,32 @@ func (c *Ctx) ruleComposer(rule string) {
 					// made up from its type: a nil *T whose methods have value receivers panics in the generated
 					// wrapper before ComposeFrom runs — inside the pipeline's goroutine
 					if len(mc.Bindings) == 1 {
-						bt := p.NewTerms(nil).Of(mc.Bindings[0])
-						if !(bt.Op == "Extract" && bt.Name == "0" && len(bt.Args) == 1 && bt.Args[0].Op == "Assert" && strings.Contains(bt.Args[0].String(), "Field[Payload]")) {
-							okV = false
+						isPayload := func(v ssa.Value) bool {
+							bt := p.NewTerms(nil).Of(v)
+							return bt.Op == "Extract" && bt.Name == "0" && len(bt.Args) == 1 && bt.Args[0].Op == "Assert" && strings.Contains(bt.Args[0].String(), "Field[Payload]")
+						}
+						okV = isPayload(mc.Bindings[0])
+						// ... or the parameter of an initialisation helper which every caller hands that payload
+						if par, isPar := mc.Bindings[0].(*ssa.Parameter); isPar && !okV {
+							idx := -1
+							for i, fp := range f.Params {
+								if fp == par {
+									idx = i
+								}
+							}
+							sites := 0
+							okV = idx >= 0
+							for _, g := range p.FuncsIn(PkgGated) {
+								for _, ci := range callsTo(g, func(n string, cc *ssa.CallCommon) bool { return cc.StaticCallee() == f }) {
+									sites++
+									if args := ci.Common().Args; idx >= len(args) || !isPayload(args[idx]) {
+										okV = false
+									}
+								}
+							}
+							if sites == 0 {
+								okV = false
+							}
 						}
 					}
 				}
@@ -5585,6 +5608,40 @@ func (c *Ctx) ruleRotationApplies(rule string) {
 		}
 		return ""
 	}
+	// a rotation cannot be REFUSED: Rotate has no result to refuse with, and the rotation arm of Process
+	// ends in (nil, nil) — "after Rotate, or after a rotation payload has been processed, every event
+	// started later uses the new wrapper" leaves no room for a validation that keeps the old key in force
+	// (and whose error the existing callers of Rotate, written against a func without results, never see)
+	if fn := c.Fn(rule, PkgEncrypt, "Filter", "Rotate"); fn != nil {
+		r.Check(fn.Signature.Results().Len() == 0, rule, p.ShortFn(fn)+":cannot-refuse", p.Pos(fn.Pos()), "Rotate has no result: it applies what it is given", "Rotate returns a value: it can refuse a rotation (a probe of the new wrapper, a validation), leaving the replaced wrapper, salt and info in force for every later event")
+	}
+	if fn := c.Fn(rule, PkgEncrypt, "Filter", "Process"); fn != nil {
+		for _, b := range fn.Blocks {
+			cond, ts, _ := condOf(b)
+			ex, ok := cond.(*ssa.Extract)
+			if !ok || ex.Index != 1 {
+				continue
+			}
+			ta, ok := ex.Tuple.(*ssa.TypeAssert)
+			if !ok || !strings.HasSuffix(typeShort(ta.AssertedType), "RotateWrapper") {
+				continue
+			}
+			nRet, bad := 0, false
+			for _, ret := range Returns(fn) {
+				if !(ret.Block() == ts || ts.Dominates(ret.Block())) || !edgeDominates(b, ts, ret.Block()) {
+					continue
+				}
+				nRet++
+				if rv := RetVals(ret); len(rv) == 2 && !isNilConst(rv[1]) {
+					bad = true
+					r.Check(false, rule, p.ShortFn(fn)+":cannot-refuse", p.InstrPos(ret), "", "the rotation arm of Process can end in an error: a rotation payload is refused (and consumed), so the wrapper, salt and info it was to replace stay in force for every later event")
+				}
+			}
+			if !bad {
+				r.Check(nRet > 0, rule, p.ShortFn(fn)+":cannot-refuse", p.InstrPos(lastInstr(b)), "every return of the rotation arm is (nil, nil)", "no return found in the rotation arm")
+			}
+		}
+	}
 	for _, name := range []string{"Rotate", "Process"} {
 		fn := c.Fn(rule, PkgEncrypt, "Filter", name)
 		if fn == nil {
@@ -7879,6 +7936,13 @@ func (c *Ctx) writesInPlace(fn *ssa.Function, deep bool, visit func(in ssa.Instr
 					}
 					return
 				}
+				// append(x[:k], ...) writes behind x[:k] into x's own array whenever it has room
+				if b, ok := cc.Value.(*ssa.Builtin); ok && b.Name() == "append" && len(cc.Args) > 0 {
+					if sl, isRe := cc.Args[0].(*ssa.Slice); isRe {
+						visit(in, sl, closure)
+					}
+					return
+				}
 				if sc := cc.StaticCallee(); sc != nil && sc.Blocks != nil && c.P.InRepo(sc) && sc != fn {
 					for i, a := range cc.Args {
 						if _, isSlice := a.Type().Underlying().(*types.Slice); !isSlice || i >= len(sc.Params) {
@@ -8487,11 +8551,33 @@ func (c *Ctx) ruleRejectCauses(rule string) {
 	}
 	known := map[string]bool{"(eventlogger.Pipeline).validate": true, "eventlogger.getOpts": true, "eventlogger.linkNodes": true, "(*eventlogger.graph).doValidate": true}
 	n, bad := 0, 0
-	for _, f := range fns {
+	var examine func(f *ssa.Function, depth int, report bool) (int, int)
+	examine = func(f *ssa.Function, depth int, report bool) (n int, bad int) {
 		tb := p.NewTerms(nil)
 		errIdx, hasErr := returnsError(f.Signature)
 		if !hasErr {
-			continue
+			return 0, 0
+		}
+		helperCause := func(x *ssa.BinOp, onTrue bool) (int, int) {
+			if (x.Op == token.NEQ) != onTrue || depth >= 2 {
+				return 0, 0
+			}
+			v := x.X
+			if isNilConst(v) {
+				v = x.Y
+			}
+			if ex, ok := v.(*ssa.Extract); ok {
+				v = ex.Tuple
+			}
+			call, ok := v.(*ssa.Call)
+			if !ok {
+				return 0, 0
+			}
+			sc := call.Call.StaticCallee()
+			if sc == nil || sc.Blocks == nil || PkgPathOf(sc) != PkgRoot || sc == f {
+				return 0, 0
+			}
+			return examine(sc, depth+1, false)
 		}
 		for _, ret := range Returns(f) {
 			rv := RetVals(ret)
@@ -8536,6 +8622,10 @@ func (c *Ctx) ruleRejectCauses(rule string) {
 						}
 						if known[name] && ((x.Op == token.NEQ) == onTrue) {
 							cause = name
+						} else if hn, hb := helperCause(x, onTrue); hn > 0 && hb == 0 {
+							// a helper of the package every failing return of which has a listed cause itself
+							cause = name
+							n += hn
 						} else {
 							cause = "?" + src.String()
 						}
@@ -8560,9 +8650,16 @@ func (c *Ctx) ruleRejectCauses(rule string) {
 			}
 			if strings.HasPrefix(cause, "?") {
 				bad++
-				r.Check(false, rule, "RegisterPipeline:failure-causes", p.InstrPos(ret), "", "RegisterPipeline returns an error behind the condition "+shortStr(cause[1:], 160)+", which is none of the reasons the property lists (invalid definition, rejected option, DenyOverwrite of the existing pipeline, unregistered node, linking, structural validation): a definition that meets all listed conditions is refused")
+				if report {
+					r.Check(false, rule, "RegisterPipeline:failure-causes", p.InstrPos(ret), "", "RegisterPipeline returns an error behind the condition "+shortStr(cause[1:], 160)+", which is none of the reasons the property lists (invalid definition, rejected option, DenyOverwrite of the existing pipeline, unregistered node, linking, structural validation): a definition that meets all listed conditions is refused")
+				}
 			}
 		}
+		return n, bad
+	}
+	for _, f := range fns {
+		fn, fb := examine(f, 0, true)
+		n, bad = n+fn, bad+fb
 	}
 	if bad == 0 {
 		r.Check(n >= 6, rule, "RegisterPipeline:failure-causes", p.Pos(fn.Pos()), fmt.Sprintf("%d failing returns, each behind one of the six listed causes", n), fmt.Sprintf("only %d failing returns found in RegisterPipeline (6 confirmed by hand)", n))
@@ -8641,5 +8738,221 @@ func (c *Ctx) ruleStructArmRecurses(rule string) {
 	}
 	if n < 1 {
 		r.Und(rule, "struct-arm:instance-floor", "", "no struct-kind arm found in the field loop of filterField")
+	}
+}
+
+// ruleFormatBytesReadOnly (<rule> <fn>:format-bytes-readonly): the slice Event.Format hands a sink is the
+// stored entry itself — the one every other sink of the Send writes out, and the one this sink's own
+// retry writes again. A sink never writes into it: no clear, copy into it, element store or append onto
+// a re-slice of it, neither directly nor in a helper it is passed to (an "excerpt" for an error message
+// built with append(val[:64], "..."...) puts the dots INTO the event).
+func (c *Ctx) ruleFormatBytesReadOnly(rule string) {
+	p, r := c.P, c.R
+	n, bad := 0, 0
+	for _, f := range p.FuncsIn(PkgRoot, PkgWriter, PkgChannel) {
+		if f.Parent() != nil {
+			continue
+		}
+		for _, ci := range callsTo(f, func(nm string, cc *ssa.CallCommon) bool { return nm == "(*eventlogger.Event).Format" }) {
+			call, ok := ci.(*ssa.Call)
+			if !ok {
+				continue
+			}
+			var val ssa.Value
+			for _, ref := range nonDebugRefs(call) {
+				if ex, ok := ref.(*ssa.Extract); ok && ex.Index == 0 {
+					val = ex
+				}
+			}
+			if val == nil {
+				continue
+			}
+			n++
+			c.writesInPlace(f, true, func(in ssa.Instruction, target ssa.Value, _ bool) {
+				if keyRoot(target) != val {
+					return
+				}
+				bad++
+				r.Check(false, rule, p.ShortFn(f)+":format-bytes-readonly", p.InstrPos(in), "", "the bytes Event.Format handed out (the stored entry itself) are written in place: what this sink's retry writes, and what every other sink of the same event writes, is no longer what the formatter stored")
+			})
+		}
+	}
+	if bad == 0 {
+		r.Check(n >= 2, rule, "format-bytes-readonly", "", fmt.Sprintf("%d sinks fetch the stored bytes with Event.Format, none writes into them", n), fmt.Sprintf("only %d calls of Event.Format found in the sink packages (2 confirmed by hand: FileSink, writer.Sink)", n))
+	}
+}
+
+// ruleNoHashOfUserValues (C03.private <fn>:panic-site:hash): package eventlogger never hashes or compares a
+// value whose dynamic type a user chooses — no map keyed by an interface type or by a struct that holds
+// one (a warning keyed by {node id, error}), no == between two interface values: hashing an error that
+// is a slice or a map type (an error list) panics, in the collector that is Send itself.
+func (c *Ctx) ruleNoHashOfUserValues(rule string) {
+	p, r := c.P, c.R
+	var holdsIface func(t types.Type, d int) bool
+	holdsIface = func(t types.Type, d int) bool {
+		if d > 4 {
+			return false
+		}
+		switch u := t.Underlying().(type) {
+		case *types.Interface:
+			return true
+		case *types.Struct:
+			for i := 0; i < u.NumFields(); i++ {
+				if holdsIface(u.Field(i).Type(), d+1) {
+					return true
+				}
+			}
+		case *types.Array:
+			return holdsIface(u.Elem(), d+1)
+		}
+		return false
+	}
+	n, bad := 0, 0
+	for _, f := range p.FuncsIn(PkgRoot) {
+		eachInstr(f, func(in ssa.Instruction) {
+			var mt *types.Map
+			switch x := in.(type) {
+			case *ssa.MapUpdate:
+				mt, _ = x.Map.Type().Underlying().(*types.Map)
+			case *ssa.Lookup:
+				mt, _ = x.X.Type().Underlying().(*types.Map)
+			case *ssa.BinOp:
+				if (x.Op == token.EQL || x.Op == token.NEQ) && types.IsInterface(x.X.Type()) && types.IsInterface(x.Y.Type()) && !isNilConst(x.X) && !isNilConst(x.Y) {
+					// two interface values compared: only error == sentinel comparisons of the library's own sentinels are expected
+					n++
+					_, xg := x.X.(*ssa.UnOp)
+					_, yg := x.Y.(*ssa.UnOp)
+					if !xg && !yg {
+						bad++
+						r.Check(false, rule, p.ShortFn(f)+":panic-site:compare", p.InstrPos(in), "", "two interface values are compared with == : when both hold the same non-comparable dynamic type (a slice- or map-based error) the comparison panics")
+					}
+				}
+				return
+			default:
+				return
+			}
+			if mt == nil {
+				return
+			}
+			n++
+			if holdsIface(mt.Key(), 0) {
+				bad++
+				r.Check(false, rule, p.ShortFn(f)+":panic-site:hash", p.InstrPos(in), "", "a map keyed by "+typeShort(mt.Key())+", which holds an interface value, is read or written: hashing the key hashes the dynamic value a user chose (an error returned by a node, a payload) and panics for a type that is not comparable — a slice- or map-based error list takes Send down")
+			}
+		})
+	}
+	if bad == 0 {
+		r.Check(n >= 5, rule, "panic-site:hash", "", fmt.Sprintf("%d map accesses / interface comparisons in package eventlogger, none over a user-chosen dynamic type", n), fmt.Sprintf("only %d map accesses found in package eventlogger (>= 5 confirmed by hand)", n))
+	}
+}
+
+// ruleNodeNotFormatted (C04.escape <fn>:node-formatted): the Broker never hands a registered Node (or a
+// record that holds one) to a reflective reader — fmt's %v / %+v / %s verbs, Sprint, json.Marshal. Such a
+// reader walks the node's fields without the node's own lock while a Send that has long released the
+// Broker's lock runs the node's Process (FileSink.BytesWritten, LastCreated, f …), and calls a String /
+// Error method of user code under Broker.lock.
+func (c *Ctx) ruleNodeNotFormatted(rule string) {
+	p, r := c.P, c.R
+	isNodeish := func(t types.Type) bool {
+		ts := typeShort(t)
+		return ts == "eventlogger.Node" || ts == "eventlogger.linkedNode" || ts == "eventlogger.nodeUsage" || ts == "eventlogger.registeredPipeline" || ts == "eventlogger.unregisteredNode"
+	}
+	n, bad := 0, 0
+	for _, f := range p.FuncsIn(PkgRoot) {
+		eachInstr(f, func(in ssa.Instruction) {
+			ci, ok := in.(ssa.CallInstruction)
+			if !ok {
+				return
+			}
+			name := calleeName(ci.Common())
+			if !(strings.HasPrefix(name, "fmt.") || name == "encoding/json.Marshal" || strings.HasPrefix(name, "log.")) {
+				return
+			}
+			n++
+			// the values handed over: direct args and what is stored into the varargs array
+			var vals []ssa.Value
+			for _, a := range ci.Common().Args {
+				vals = append(vals, a)
+				if sl, ok := a.(*ssa.Slice); ok {
+					if al, ok := sl.X.(*ssa.Alloc); ok {
+						for _, ref := range nonDebugRefs(al) {
+							if ia, ok := ref.(*ssa.IndexAddr); ok {
+								for _, r2 := range nonDebugRefs(ia) {
+									if st, ok := r2.(*ssa.Store); ok {
+										vals = append(vals, st.Val)
+									}
+								}
+							}
+						}
+					}
+				}
+			}
+			for _, v := range vals {
+				for i := 0; i < 3; i++ {
+					switch x := v.(type) {
+					case *ssa.MakeInterface:
+						v = x.X
+					case *ssa.ChangeInterface:
+						v = x.X
+					}
+				}
+				if isNodeish(v.Type()) {
+					bad++
+					r.Check(false, rule, p.ShortFn(f)+":node-formatted", p.InstrPos(in), "", "a value of type "+typeShort(v.Type())+" is handed to "+name+": the formatter reads the node's fields by reflection (or calls its String / Error method) without the node's own lock — a data race with the node's Process in a Send that no longer holds the Broker's lock — and runs user code under Broker.lock")
+					return
+				}
+			}
+		})
+	}
+	if bad == 0 {
+		r.Check(n >= 10, rule, "node-formatted", "", fmt.Sprintf("%d formatting calls in package eventlogger, none is handed a Node", n), fmt.Sprintf("only %d formatting calls found in package eventlogger (>= 10 confirmed by hand)", n))
+	}
+}
+
+// ruleNoLockInStringer (C12.stringer <method>): the methods fmt calls on its own — String, Error, GoString,
+// Format, MarshalText / MarshalJSON — of a type that guards its state with a mutex never take that mutex:
+// they are invoked wherever a value is formatted, also by an fmt.Errorf in a method of the same type
+// that holds the lock (an error carrying the filter, printed with %s), and then the goroutine waits for
+// itself — every later call on the node, and the Broker call that closes it, blocks for good.
+func (c *Ctx) ruleNoLockInStringer(rule string) {
+	p, r := c.P, c.R
+	may := c.MayLocks()
+	names := map[string]bool{"String": true, "Error": true, "GoString": true, "Format": true, "MarshalText": true, "MarshalJSON": true}
+	n, bad := 0, 0
+	for _, f := range p.RepoFuncs() {
+		if p.InCtl(f) || f.Parent() != nil || f.Signature.Recv() == nil || !names[f.Name()] {
+			continue
+		}
+		// the signatures fmt / encoding look for: no parameters (Format: fmt.State and a rune)
+		if np := f.Signature.Params().Len(); (f.Name() == "Format" && np != 2) || (f.Name() != "Format" && np != 0) {
+			continue
+		}
+		n++
+		acquired := ""
+		eachInstr(f, func(in ssa.Instruction) {
+			if ci, ok := in.(ssa.CallInstruction); ok {
+				if op := lockOpOf(ci.Common()); op != nil && op.Acquire && acquired == "" {
+					acquired = op.Class + " at " + p.InstrPos(in)
+				}
+				// one level into the module: a helper that takes the lock
+				if sc := ci.Common().StaticCallee(); sc != nil && sc.Blocks != nil && p.InRepo(sc) && acquired == "" {
+					eachInstr(sc, func(x ssa.Instruction) {
+						if cx, ok := x.(ssa.CallInstruction); ok {
+							if op := lockOpOf(cx.Common()); op != nil && op.Acquire && acquired == "" {
+								acquired = op.Class + " in " + p.ShortFn(sc)
+							}
+						}
+					})
+				}
+			}
+		})
+		_ = may
+		if acquired != "" {
+			bad++
+			r.Check(false, rule, p.ShortFn(f), p.Pos(f.Pos()), "", "the method fmt calls on its own ("+f.Name()+") acquires "+acquired+": a value of this type that is formatted while that lock is held (an error that carries it, built with fmt.Errorf in a locked method) makes the goroutine wait for itself — the node, and every Broker call that reaches it, blocks for good")
+		}
+	}
+	if bad == 0 {
+		r.Check(n >= 1, rule, "stringer", "", fmt.Sprintf("%d String / Error / Marshal methods in the module, none takes a lock", n), "no String / Error method found in the module")
 	}
 }
